@@ -9,6 +9,9 @@
 // Read, empty Read, CloseWrite, Close, Write+CloseWrite). Every handler closure speaks
 // first (its registration id, the protocol its stream reports, a serial number of the
 // invocation), then echoes what it received (the nonce, or "nothing, then EOF").
+//
+// bothways_test.go generates the same rounds with either host as the opener and without any
+// harness-side peerstore write (knowledge produced by the library alone).
 package c07
 
 import (
@@ -52,10 +55,22 @@ func TestMain(m *testing.M) {
 			"Non-trivial = some open took the optimistic (lazy) path with a protocol the listener does not accept (stale / over-optimistic knowledge), "+
 			"or a match-function registration (not an exact ID) answered, or handlers were changed after the first batch of opens. "+
 			"Distinct = distinct (pair kind, limited, handler history, knowledge states, request lists, first-operation kinds). "+
-			"Labels first-op:<kind>:<eager|lazy-accepted|lazy-refused> count the cases containing such an open.",
+			"Labels first-op:<kind>:<eager|lazy-accepted|lazy-refused> count the cases containing such an open. "+
+			"TestBothDirections / TestBothDirectionsSmall generate the same rounds with opens in BOTH directions over the one connection: both hosts carry independently drawn "+
+			"(asymmetric) handler sets, each round names which host opens (2..5 rounds, opener switches with probability 2/3), handler changes happen on either host (none in half "+
+			"of the rounds; each change makes a BasicHost push its protocol list; in 1/4 of the rounds with changes the opens start while the pushes are in flight), request lists mix "+
+			"IDs the responder serves, IDs the responder itself opened earlier to the opener but does not serve, IDs the opener serves, and arbitrary ones; the harness never writes "+
+			"a peerstore there, so an opener's knowledge is whatever the library derived from identify, pushes and the earlier opens in either direction "+
+			"(label knowledge-source:library-only). Extra oracle rule while the harness has written no knowledge in a case: a failure on first use (or a stream that reaches no handler) "+
+			"is tolerated only if the responder accepted or announced the bound protocol at some time or no requested protocol is common; and no application handler may run on the opener's own host. "+
+			"There a case is also non-trivial if some request names an ID the responder itself had opened earlier (labels both-ways:...; the longest one counts the cases in which such an ID, never "+
+			"served by the responder, precedes a common protocol in the request of a BasicHost opener). TestBothDirectionsSmall: all pairs of exact handler sets over two IDs x first opener x "+
+			"ordered requests of both directions x push / no push in between x 3 host pairings, history P->Q, Q->P, P->Q.",
 		"go-multistream (select / lazy select / muxer) is a trusted dependency, exercised but not modelled",
-		"handler changes are applied between batches of opens, at quiescence (synctest.Wait), never concurrently with an open; "+
-			"so 'installed when the open started' is well defined",
+		"handler changes are applied between batches of opens, never concurrently with an open, so 'installed when the open started' is well defined; "+
+			"the batch starts at quiescence (synctest.Wait), except in the both-directions rounds marked no_settle, where only the identify pushes caused by the changes are still in flight "+
+			"(there 'earlier knowledge' is bounded by the model: the responder accepted or announced the protocol at some time)",
+		"which of two concurrent opens of one batch negotiates first is decided by the Go scheduler: the generated inputs are a pure function of the seed, the eager/lazy outcome labels of such batches may differ by a few counts between runs",
 		"application payload starts with a 0x00 byte, which is never a valid multistream token: after a refused lazy negotiation the listener cannot "+
 			"mistake payload for a further protocol proposal",
 		"the in-memory transport replaces only the socket; security, muxer, swarm, hosts, identify and resource manager are the real ones",
@@ -124,6 +139,7 @@ type lop struct {
 	Pid    protocol.ID `json:"pid"`
 	Kind   string      `json:"kind,omitempty"`
 	Target protocol.ID `json:"target,omitempty"`
+	Host   string      `json:"host,omitempty"` // "" = the host that listened for the connection, "D" = the host that dialled it
 }
 
 type openSpec struct {
@@ -161,18 +177,30 @@ func (o openSpec) use() string {
 // two kinds that close without having sent anything).
 func (o openSpec) sendsRequest() bool { return o.use() != useCloseWrite && o.use() != useClose }
 
+// A round: handler changes (on either host), then one batch of concurrent opens, all made
+// by the same host. Which of the two hosts opens is part of the round: the statement is
+// about "a host" opening a stream to "the remote", not about the host that happened to
+// dial the connection. Opener "" = the host that dialled the connection, "L" = the host
+// that listened for it.
 type round struct {
 	Ops      []lop         `json:"ops"`
 	KnowMode string        `json:"know_mode"`
 	Know     []protocol.ID `json:"know,omitempty"`
 	Opens    []openSpec    `json:"opens"`
+	Opener   string        `json:"opener,omitempty"`
+	// NoSettle: the opens start right after the handler changes of this round, while the
+	// identify pushes they caused are still in flight (default: pushes are delivered first).
+	NoSettle bool `json:"no_settle,omitempty"`
 }
 
+// Dialer / Listener are the kinds of the host that dials / listens for the one connection
+// of the case; streams are opened over it by the host each round names.
 type scenario struct {
 	Dialer   string  `json:"dialer"`
 	Listener string  `json:"listener"`
 	Limited  bool    `json:"limited"`
 	Init     []lop   `json:"init"`
+	InitD    []lop   `json:"init_dialer,omitempty"` // handlers of the connection's dialer (it is a listener for streams too)
 	Rounds   []round `json:"rounds"`
 	Key      uint64  `json:"-"`
 }
@@ -199,9 +227,10 @@ type lmodel struct {
 	installed []*reg // in registration order
 	all       []*reg
 	ever      map[protocol.ID]bool // IDs accepted at some point of the history
+	named     map[protocol.ID]bool // IDs that were the name of a registration at some point (what the host itself announces)
 }
 
-func newModel() *lmodel { return &lmodel{ever: map[protocol.ID]bool{}} }
+func newModel() *lmodel { return &lmodel{ever: map[protocol.ID]bool{}, named: map[protocol.ID]bool{}} }
 
 // apply returns the new registration for set/match (nil for remove).
 func (m *lmodel) apply(op lop) *reg {
@@ -221,6 +250,7 @@ func (m *lmodel) apply(op lop) *reg {
 		nr = &reg{id: len(m.all), name: op.Pid, kind: kind, target: op.Target}
 		m.all = append(m.all, nr)
 		m.installed = append(m.installed, nr)
+		m.named[op.Pid] = true
 	}
 	for _, id := range reqUniverse {
 		if m.accepted(id) {
@@ -751,6 +781,21 @@ func viewStats(f failer, n *node) map[protocol.ID]protoStat {
 	return out
 }
 
+// side is one of the two hosts of a case: every host is a listener for streams (it has
+// handlers, modelled by m, whose invocations are logged in hl) and may be the opener of a
+// round.
+type side struct {
+	n    *node
+	kind string
+	role string // "conn-dialer" | "conn-listener"
+	m    *lmodel
+	hl   *hlog
+	base map[protocol.ID]protoStat
+	// bound: protocol IDs of the streams this host obtained from NewStream so far in the case
+	// (i.e. what the other host has seen this host open)
+	bound map[protocol.ID]bool
+}
+
 func runScenario(f failer, sc *scenario) *outcome {
 	oc := &outcome{labels: map[string]bool{}}
 	lab := func(s string) { oc.labels[s] = true }
@@ -767,11 +812,24 @@ func runScenario(f failer, sc *scenario) *outcome {
 	}
 	defer L.Close()
 
-	m := newModel()
-	hl := newHlog()
-	defer hl.releaseAll() // registered after the hosts: runs before they are closed, also on failure
+	sides := [2]*side{
+		{n: D, kind: sc.Dialer, role: "conn-dialer", m: newModel(), hl: newHlog(), bound: map[protocol.ID]bool{}},
+		{n: L, kind: sc.Listener, role: "conn-listener", m: newModel(), hl: newHlog(), bound: map[protocol.ID]bool{}},
+	}
+	sideOf := func(op lop) *side {
+		if op.Host == "D" {
+			return sides[0]
+		}
+		return sides[1]
+	}
+	// registered after the hosts: runs before they are closed, also on failure
+	defer sides[0].hl.releaseAll()
+	defer sides[1].hl.releaseAll()
 	for _, op := range sc.Init {
-		applyOp(L, op, m.apply(op), hl)
+		applyOp(L, op, sides[1].m.apply(op), sides[1].hl)
+	}
+	for _, op := range sc.InitD {
+		applyOp(D, op, sides[0].m.apply(op), sides[0].hl)
 	}
 	baseCtx := context.Background()
 	if sc.Limited {
@@ -785,36 +843,70 @@ func runScenario(f failer, sc *scenario) *outcome {
 			f.Fatalf("harness: connect over a faithful pipe failed: %v", err)
 		}
 	}
-	synctest.Wait()
+	synctest.Wait() // both swarms know the connection; identify has completed where it can
 	if got := D.Network().ConnsToPeer(L.ID()); len(got) != 1 || got[0].Stat().Limited != sc.Limited {
 		f.Fatalf("harness: expected one connection with Limited=%v, got %d", sc.Limited, len(got))
 	}
-	base := [2]map[protocol.ID]protoStat{viewStats(f, D), viewStats(f, L)}
+	if got := L.Network().ConnsToPeer(D.ID()); len(got) != 1 {
+		f.Fatalf("harness: expected one connection on the listening host, got %d", len(got))
+	}
+	sides[0].base, sides[1].base = viewStats(f, D), viewStats(f, L)
+
+	// harnessWrote: the harness has written protocol knowledge into a peerstore in this case.
+	// As long as it has not, whatever an opener believes about the other host was produced by
+	// the library itself (identify, identify push, earlier opens in either direction).
+	harnessWrote := false
+	prevOpener := -1
 
 	for ri, r := range sc.Rounds {
 		for _, op := range r.Ops {
-			applyOp(L, op, m.apply(op), hl)
+			t := sideOf(op)
+			applyOp(t.n, op, t.m.apply(op), t.hl)
 		}
 		if ri > 0 && len(r.Ops) > 0 {
 			oc.nontrivial = true // handlers changed during the case
 			lab("handlers-changed-between-batches")
 		}
-		synctest.Wait() // identify pushes settle
+		if r.NoSettle {
+			if len(r.Ops) > 0 && (sc.Dialer == "basic" || sc.Listener == "basic") {
+				lab("identify-push:in-flight-during-opens")
+			}
+		} else {
+			synctest.Wait() // identify pushes settle
+		}
+		oi := 0
+		if r.Opener == "L" {
+			oi = 1
+		}
+		O, R := sides[oi], sides[1-oi]
+		m, hl := R.m, R.hl // the responder's registrations and handler log
+		lab("opener:" + O.role)
+		if prevOpener >= 0 && prevOpener != oi {
+			lab("opener:switched-between-rounds")
+		}
+		prevOpener = oi
 		switch r.KnowMode {
 		case "keep":
 		case "random":
-			if err := D.Peerstore().SetProtocols(L.ID(), r.Know...); err != nil {
+			harnessWrote = true
+			if err := O.n.Peerstore().SetProtocols(R.n.ID(), r.Know...); err != nil {
 				f.Fatalf("harness: SetProtocols: %v", err)
 			}
 		default:
-			if err := D.Peerstore().RemoveProtocols(L.ID(), reqUniverse...); err != nil {
+			harnessWrote = true
+			if err := O.n.Peerstore().RemoveProtocols(R.n.ID(), reqUniverse...); err != nil {
 				f.Fatalf("harness: RemoveProtocols: %v", err)
 			}
-			if err := D.Peerstore().AddProtocols(L.ID(), r.Know...); err != nil {
+			if err := O.n.Peerstore().AddProtocols(R.n.ID(), r.Know...); err != nil {
 				f.Fatalf("harness: AddProtocols: %v", err)
 			}
 		}
-		known, err := D.Peerstore().SupportsProtocols(L.ID(), reqUniverse...)
+		if harnessWrote {
+			lab("knowledge-source:harness-wrote-peerstore")
+		} else {
+			lab("knowledge-source:library-only")
+		}
+		known, err := O.n.Peerstore().SupportsProtocols(R.n.ID(), reqUniverse...)
 		if err != nil {
 			f.Fatalf("harness: SupportsProtocols: %v", err)
 		}
@@ -822,8 +914,23 @@ func runScenario(f failer, sc *scenario) *outcome {
 		for _, id := range known {
 			inK[id] = true
 		}
-		if stale := hl.take(); len(stale) != 0 {
-			f.Fatalf("round %d: %d application handler invocation(s) with no open in progress (first: registration #%d, protocol %q)", ri, len(stale), stale[0].reg, stale[0].proto)
+		for _, sd := range sides {
+			if stale := sd.hl.take(); len(stale) != 0 {
+				f.Fatalf("round %d: %d application handler invocation(s) on the %s with no open in progress (first: registration #%d, protocol %q)", ri, len(stale), sd.role, stale[0].reg, stale[0].proto)
+			}
+		}
+		// excused: a stream bound to P that dies on first use (or reaches no handler) is tolerated
+		// only when P was chosen optimistically from earlier knowledge. With the pushes of this
+		// round still in flight the snapshot `known` is not what NewStream will see, so there the
+		// belief is bounded by the model: the responder accepted or announced P at some time.
+		excused := func(P protocol.ID) bool {
+			if O.kind != "basic" || m.accepted(P) {
+				return false
+			}
+			if r.NoSettle {
+				return inK[P] || m.ever[P] || m.named[P]
+			}
+			return inK[P]
 		}
 
 		// the batch: all opens start at the same virtual instant
@@ -836,7 +943,7 @@ func runScenario(f failer, sc *scenario) *outcome {
 				defer wg.Done()
 				ctx, cancel := context.WithTimeout(baseCtx, 30*time.Second)
 				defer cancel()
-				s, err := D.NewStream(ctx, L.ID(), o.Req...)
+				s, err := O.n.NewStream(ctx, R.n.ID(), o.Req...)
 				if err != nil {
 					out.err = err
 					return
@@ -851,10 +958,19 @@ func runScenario(f failer, sc *scenario) *outcome {
 
 		// ---- oracle
 		ctxt := func(i int) string {
-			return fmt.Sprintf("round %d open %d: request %v, dialer(%s) knowledge %v, listener(%s) registrations %s", ri, i, r.Opens[i].Req, sc.Dialer, known, sc.Listener, m.describe())
+			return fmt.Sprintf("round %d open %d: request %v, opener %s(%s) knowledge %v (%s), responder %s(%s) registrations %s; earlier: %s", ri, i, r.Opens[i].Req,
+				O.role, O.kind, known, map[bool]string{false: "produced by the library alone", true: "written by the harness"}[harnessWrote], R.role, R.kind, m.describe(), strings.Join(oc.trace, " | "))
+		}
+		// libraryMadeItUp: the statement tolerates a failure on first use when the protocol "was
+		// chosen optimistically from earlier knowledge", and lists the knowledge states unknown,
+		// accurate, stale after handler removal. Knowledge the library produced by itself about a
+		// protocol the responder never accepted and never announced is none of these: if a
+		// requested protocol is common to both sides, the open has to succeed on it.
+		libraryMadeItUp := func(P protocol.ID, shared bool) bool {
+			return !harnessWrote && shared && !m.ever[P] && !m.named[P]
 		}
 		byInv := map[int]int{}                                       // handler invocation serial -> open it answered
-		openD, openL := map[protocol.ID]int{}, map[protocol.ID]int{} // streams open on the dialer / held by handlers
+		openD, openL := map[protocol.ID]int{}, map[protocol.ID]int{} // streams open on the opener / held by the responder's handlers
 		var closedOK []int                                           // opens closed at once on an accepted protocol
 		nOK := 0
 		for i, o := range r.Opens {
@@ -865,7 +981,7 @@ func runScenario(f failer, sc *scenario) *outcome {
 					shared = true
 				}
 			}
-			// labels: what the dialer believed about the requested IDs
+			// labels: what the opener believed about the requested IDs
 			var kreq []protocol.ID
 			for _, id := range o.Req {
 				if inK[id] {
@@ -873,7 +989,7 @@ func runScenario(f failer, sc *scenario) *outcome {
 				}
 			}
 			kclass := "unknown"
-			if len(kreq) > 0 && sc.Dialer == "basic" {
+			if len(kreq) > 0 && O.kind == "basic" {
 				switch first := kreq[0]; {
 				case m.accepted(first):
 					kclass = "accurate-first"
@@ -899,16 +1015,37 @@ func runScenario(f failer, sc *scenario) *outcome {
 					lab("overlapping-registrations")
 				}
 			}
+			// the both-directions class: the request names a protocol the responder itself opened
+			// to the opener earlier in the case (the library saw the remote speak it as a client)
+			for k, id := range o.Req {
+				if !R.bound[id] {
+					continue
+				}
+				oc.nontrivial = true
+				lab("both-ways:request-names-id-the-responder-opened-earlier")
+				if !m.ever[id] && !m.named[id] {
+					lab("both-ways:...which-the-responder-never-served")
+					for _, later := range o.Req[k+1:] {
+						if m.accepted(later) {
+							lab("both-ways:...which-the-responder-never-served,listed-before-a-common-protocol")
+							if !harnessWrote && O.kind == "basic" {
+								lab("both-ways:...which-the-responder-never-served,listed-before-a-common-protocol,library-only-knowledge,basic-opener")
+							}
+						}
+					}
+				}
+			}
 
 			if out.err != nil {
 				lab("outcome:newstream-error")
-				oc.trace = append(oc.trace, fmt.Sprintf("r%d.%d %v -> error", ri, i, o.Req))
+				oc.trace = append(oc.trace, fmt.Sprintf("r%d.%d %s %v -> error", ri, i, O.role, o.Req))
 				if shared {
-					f.Fatalf("%s: NewStream failed (%v) although the listener accepts one of the requested protocols", ctxt(i), out.err)
+					f.Fatalf("%s: NewStream failed (%v) although the responder accepts one of the requested protocols", ctxt(i), out.err)
 				}
 				continue
 			}
 			P := out.proto
+			O.bound[P] = true
 			if out.lazy {
 				lab("path:lazy")
 			} else {
@@ -928,14 +1065,19 @@ func runScenario(f failer, sc *scenario) *outcome {
 			}
 			if out.useErr != nil {
 				lab("outcome:first-use-failed")
-				oc.trace = append(oc.trace, fmt.Sprintf("r%d.%d %v %s -> %s lazy=%v first use failed", ri, i, o.Req, o.use(), P, out.lazy))
+				oc.trace = append(oc.trace, fmt.Sprintf("r%d.%d %s %v %s -> %s lazy=%v first use failed", ri, i, O.role, o.Req, o.use(), P, out.lazy))
 				if errors.Is(out.useErr, errNoProgress) {
 					f.Fatalf("%s: stream bound to %q: first use neither delivered data nor failed: %v", ctxt(i), P, out.useErr)
 				}
 				// the only excuse: the protocol was chosen optimistically from (wrong) earlier knowledge
-				if !(sc.Dialer == "basic" && inK[P] && !m.accepted(P)) {
-					f.Fatalf("%s: stream bound to %q failed on first use (%v) but that is not excused: believed-supported=%v, accepted-by-listener=%v",
+				if !excused(P) {
+					f.Fatalf("%s: stream bound to %q failed on first use (%v) but that is not excused: believed-supported=%v, accepted-by-responder=%v",
 						ctxt(i)+" ("+o.use()+")", P, out.useErr, inK[P], m.accepted(P))
+				}
+				if libraryMadeItUp(P, shared) {
+					f.Fatalf("%s: stream bound to %q failed on first use (%v). The opener's belief that the responder supports %q was produced by the library itself (the harness wrote no protocol knowledge in this case), "+
+						"but the responder never accepted and never announced %q, so no handler removal can have made that belief stale; the two sides do have a requested protocol in common, the open has to succeed on it",
+						ctxt(i)+" ("+o.use()+")", P, out.useErr, P, P)
 				}
 				oc.nontrivial = true
 				if r.KnowMode == "keep" {
@@ -949,15 +1091,19 @@ func runScenario(f failer, sc *scenario) *outcome {
 				continue
 			}
 			if out.closed {
-				// Close() was the only operation: nothing can be observed on the dialer's side. What
-				// the statement still demands is on the listener's side (checked below): exactly the
-				// right handler runs if the listener accepts P, none otherwise. Close() may succeed
+				// Close() was the only operation: nothing can be observed on the opener's side. What
+				// the statement still demands is on the responder's side (checked below): exactly the
+				// right handler runs if the responder accepts P, none otherwise. Close() may succeed
 				// locally even if an optimistic choice is refused.
 				lab("outcome:closed-at-once")
-				oc.trace = append(oc.trace, fmt.Sprintf("r%d.%d %v -> %s lazy=%v closed at once", ri, i, o.Req, P, out.lazy))
+				oc.trace = append(oc.trace, fmt.Sprintf("r%d.%d %s %v -> %s lazy=%v closed at once", ri, i, O.role, o.Req, P, out.lazy))
 				if !m.accepted(P) {
-					if !(sc.Dialer == "basic" && inK[P]) {
-						f.Fatalf("%s: NewStream returned a stream bound to %q, which the listener does not accept, and the dialer had no earlier knowledge that excuses an optimistic choice", ctxt(i), P)
+					if !excused(P) {
+						f.Fatalf("%s: NewStream returned a stream bound to %q, which the responder does not accept, and the opener had no earlier knowledge that excuses an optimistic choice", ctxt(i), P)
+					}
+					if libraryMadeItUp(P, shared) {
+						f.Fatalf("%s: NewStream returned a stream bound to %q, which the responder does not accept, never accepted and never announced; the opener's belief was produced by the library itself "+
+							"(the harness wrote no protocol knowledge in this case) and the two sides do have a requested protocol in common: the open has to be bound to it and reach its handler", ctxt(i), P)
 					}
 					oc.nontrivial = true
 					lab("lazy-refused:closed-before-use")
@@ -973,7 +1119,7 @@ func runScenario(f failer, sc *scenario) *outcome {
 			lab("outcome:ok")
 			nOK++
 			rep, ech := out.rep, out.echo
-			oc.trace = append(oc.trace, fmt.Sprintf("r%d.%d %v %s -> %s lazy=%v reg#%d", ri, i, o.Req, o.use(), P, out.lazy, rep.Reg))
+			oc.trace = append(oc.trace, fmt.Sprintf("r%d.%d %s %v %s -> %s lazy=%v reg#%d", ri, i, O.role, o.Req, o.use(), P, out.lazy, rep.Reg))
 			if ech.Inv != rep.Inv {
 				f.Fatalf("%s: the greeting on this stream came from handler invocation %d, the echo from invocation %d: bytes of two endpoints on one stream", ctxt(i), rep.Inv, ech.Inv)
 			}
@@ -983,6 +1129,9 @@ func runScenario(f failer, sc *scenario) *outcome {
 				}
 			} else if ech.N != 0 || !ech.EOF {
 				f.Fatalf("%s (%s): closed the stream for writing without sending anything, the handler received %d bytes (eof=%v)", ctxt(i), o.use(), ech.N, ech.EOF)
+			}
+			if rep.Local != R.n.ID().String() {
+				f.Fatalf("%s: the stream was answered by a handler running on host %s, not on the host it was opened to (%s)", ctxt(i), rep.Local, R.n.ID())
 			}
 			if rep.Reg < 0 || rep.Reg >= len(m.all) {
 				f.Fatalf("%s: reply names unknown registration #%d", ctxt(i), rep.Reg)
@@ -995,12 +1144,12 @@ func runScenario(f failer, sc *scenario) *outcome {
 				f.Fatalf("%s: stream bound to %q was answered by %s, which neither is registered for nor matches that protocol", ctxt(i), P, ar)
 			}
 			if protocol.ID(rep.Proto) != P {
-				f.Fatalf("%s: dialer's stream reports %q, the handler's stream reported %q", ctxt(i), P, rep.Proto)
+				f.Fatalf("%s: opener's stream reports %q, the handler's stream reported %q", ctxt(i), P, rep.Proto)
 			}
 			if out.protoPost != P {
-				f.Fatalf("%s: dialer's stream changed its protocol from %q to %q", ctxt(i), P, out.protoPost)
+				f.Fatalf("%s: opener's stream changed its protocol from %q to %q", ctxt(i), P, out.protoPost)
 			}
-			if rep.Remote != D.ID().String() || rep.Local != L.ID().String() || network.Direction(rep.Dir) != network.DirInbound {
+			if rep.Remote != O.n.ID().String() || network.Direction(rep.Dir) != network.DirInbound {
 				f.Fatalf("%s: handler's stream endpoints wrong: remote=%s local=%s dir=%d", ctxt(i), rep.Remote, rep.Local, rep.Dir)
 			}
 			if ar.kind != "exact" {
@@ -1021,19 +1170,19 @@ func runScenario(f failer, sc *scenario) *outcome {
 		lab(fmt.Sprintf("concurrent-opens:%d", len(r.Opens)))
 
 		// exactly the handler: one invocation per open that reached a handler (round trip
-		// succeeded, or closed at once on a protocol the listener accepts), none otherwise
+		// succeeded, or closed at once on a protocol the responder accepts), none otherwise
 		invs := hl.take()
 		for _, inv := range invs {
 			ar := m.all[inv.reg]
 			if !m.isInstalled(inv.reg) {
-				f.Fatalf("round %d: application handler %s ran (stream protocol %q) although it was removed before the batch started; listener registrations %s", ri, ar, inv.proto, m.describe())
+				f.Fatalf("round %d: application handler %s ran (stream protocol %q) although it was removed before the batch started; responder registrations %s", ri, ar, inv.proto, m.describe())
 			}
-			if inv.remote != D.ID() {
+			if inv.remote != O.n.ID() {
 				f.Fatalf("round %d: stream of handler %s has remote peer %s", ri, ar, inv.remote)
 			}
 			i, ok := byInv[inv.serial]
 			if !ok {
-				// not named by any reply the dialer read: it must belong to an open that was closed at
+				// not named by any reply the opener read: it must belong to an open that was closed at
 				// once (same protocol; which of several equal ones is immaterial)
 				i = -1
 				for _, c := range closedOK {
@@ -1057,7 +1206,7 @@ func runScenario(f failer, sc *scenario) *outcome {
 			}
 			res[i].claimed = true
 			if inv.proto != res[i].proto {
-				f.Fatalf("round %d open %d: handler %s was invoked on a stream reporting %q, dialer's stream reports %q", ri, i, ar, inv.proto, res[i].proto)
+				f.Fatalf("round %d open %d: handler %s was invoked on a stream reporting %q, opener's stream reports %q", ri, i, ar, inv.proto, res[i].proto)
 			}
 			// what the handler itself recorded (not only what it wrote back)
 			wantN := 0
@@ -1065,33 +1214,38 @@ func runScenario(f failer, sc *scenario) *outcome {
 				wantN = payloadLen
 			}
 			if !inv.done || inv.got != wantN || (wantN == payloadLen && inv.nonce != r.Opens[i].nonce) || (wantN == 0 && !inv.eof) {
-				f.Fatalf("round %d open %d (%s): handler %s received %d request bytes (complete=%v eof=%v nonce %x), the dialer sent %d (nonce %x)",
+				f.Fatalf("round %d open %d (%s): handler %s received %d request bytes (complete=%v eof=%v nonce %x), the opener sent %d (nonce %x)",
 					ri, i, r.Opens[i].use(), ar, inv.got, inv.done, inv.eof, inv.nonce, wantN, r.Opens[i].nonce)
 			}
 			openL[inv.proto]++ // the handler holds its stream until the audit below is over
 		}
 		for i, out := range res {
 			if (out.rep != nil || (out.closed && m.accepted(out.proto))) && !out.claimed {
-				f.Fatalf("round %d open %d (%s): stream bound to %q, which the listener accepts, but no application handler ran for it; opens %s",
+				f.Fatalf("round %d open %d (%s): stream bound to %q, which the responder accepts, but no application handler ran for it; opens %s",
 					ri, i, r.Opens[i].use(), out.proto, describeBatch(r.Opens, res))
 			}
 		}
 		if len(invs) != nOK+len(closedOK) {
 			f.Fatalf("round %d: %d application handler invocations for %d opens that reached a handler; opens %s", ri, len(invs), nOK+len(closedOK), describeBatch(r.Opens, res))
 		}
+		// "between precisely those two endpoints": nothing runs on the opener's own handlers
+		if own := O.hl.take(); len(own) != 0 {
+			f.Fatalf("round %d: %d application handler invocation(s) on the opener's own host (%s) during its batch of opens (first: registration %s, stream protocol %q); opens %s",
+				ri, len(own), O.role, O.m.all[own[0].reg], own[0].proto, describeBatch(r.Opens, res))
+		}
 
-		// charged to the negotiated protocol's scope on both sides while open (dialer: until it
-		// closes; listener: until the handler, which is holding the stream, closes) ...
-		stD, stL := viewStats(f, D), viewStats(f, L)
+		// charged to the negotiated protocol's scope on both sides while open (opener: until it
+		// closes; responder: until the handler, which is holding the stream, closes) ...
+		stD, stL := viewStats(f, O.n), viewStats(f, R.n)
 		for _, id := range reqUniverse {
-			if got := stD[id].out - base[0][id].out; got != openD[id] {
-				f.Fatalf("round %d: dialer's protocol scope %q counts %d outbound streams above baseline, %d streams bound to it are open; opens %s", ri, id, got, openD[id], describeBatch(r.Opens, res))
+			if got := stD[id].out - O.base[id].out; got != openD[id] {
+				f.Fatalf("round %d: opener's protocol scope %q counts %d outbound streams above baseline, %d streams bound to it are open; opens %s", ri, id, got, openD[id], describeBatch(r.Opens, res))
 			}
-			if got := stL[id].in - base[1][id].in; got != openL[id] {
-				f.Fatalf("round %d: listener's protocol scope %q counts %d inbound streams above baseline, %d streams bound to it are held open by their handlers; opens %s", ri, id, got, openL[id], describeBatch(r.Opens, res))
+			if got := stL[id].in - R.base[id].in; got != openL[id] {
+				f.Fatalf("round %d: responder's protocol scope %q counts %d inbound streams above baseline, %d streams bound to it are held open by their handlers; opens %s", ri, id, got, openL[id], describeBatch(r.Opens, res))
 			}
-			if stD[id].in != base[0][id].in || stL[id].out != base[1][id].out {
-				f.Fatalf("round %d: protocol scope %q charged in the wrong direction: dialer inbound %d, listener outbound %d", ri, id, stD[id].in, stL[id].out)
+			if stD[id].in != O.base[id].in || stL[id].out != R.base[id].out {
+				f.Fatalf("round %d: protocol scope %q charged in the wrong direction: opener inbound %d, responder outbound %d", ri, id, stD[id].in, stL[id].out)
 			}
 		}
 		// ... and released after close
@@ -1104,11 +1258,11 @@ func runScenario(f failer, sc *scenario) *outcome {
 		}
 		hl.releaseAll()
 		synctest.Wait()
-		stD, stL = viewStats(f, D), viewStats(f, L)
+		stD, stL = viewStats(f, O.n), viewStats(f, R.n)
 		for _, id := range reqUniverse {
-			if stD[id] != base[0][id] || stL[id] != base[1][id] {
-				f.Fatalf("round %d: after closing every stream protocol scope %q did not return to its baseline: dialer %+v (baseline %+v), listener %+v (baseline %+v)",
-					ri, id, stD[id], base[0][id], stL[id], base[1][id])
+			if stD[id] != O.base[id] || stL[id] != R.base[id] {
+				f.Fatalf("round %d: after closing every stream protocol scope %q did not return to its baseline: opener %+v (baseline %+v), responder %+v (baseline %+v)",
+					ri, id, stD[id], O.base[id], stL[id], R.base[id])
 			}
 		}
 	}
